@@ -1,1 +1,39 @@
 //! Security simulators (feature security); descendant of crate::security for visibility.
+#![allow(dead_code, unused_imports, clippy::all)]
+pub mod crypto16;
+pub mod hs19;
+pub mod pipe;
+pub mod pipe16;
+pub mod world;
+
+/// bring-up smoke test used while developing the drivers
+pub fn smoke() -> Vec<String> {
+  let mut out = vec![];
+  for gov in ["governance_rtps_N", "governance_rtps_S", "governance_rtps_EO"] {
+    let topics = ["T_N_N", "T_S_N", "T_N_E", "T_EO_E", "DCPSParticipant"];
+    let t0 = std::time::Instant::now();
+    match pipe::Pipe::new(gov, &topics, false, true, false) {
+      Err(e) => out.push(format!("{gov}: bring-up failed: {e}")),
+      Ok(mut p) => {
+        out.push(format!("{gov}: up in {:?}", t0.elapsed()));
+        for f in 0..topics.len() {
+          for len in [0usize, 1, 4, 5] {
+            let (sn, dgs) = p.send_real(f, len, false);
+            for d in &dgs {
+              p.inject(d);
+            }
+            let c = p.cache(f);
+            out.push(format!(
+              "  {} len {len}: {} datagram(s) of {:?} bytes, cache has sn {sn}: {}",
+              topics[f],
+              dgs.len(),
+              dgs.iter().map(|d| d.len()).collect::<Vec<_>>(),
+              c.iter().any(|(s, _)| *s == sn)
+            ));
+          }
+        }
+      }
+    }
+  }
+  out
+}
